@@ -111,9 +111,85 @@ def stormJudge (f : List String) (_out : String) : String :=
   | none => "bad:unparsable:"
   | some (rs, qs) => stormVerdict rs qs
 
+
+/-! c07.mixed  S:<servers>  R:<servers> …     servers = comma list of <kind t|u|b><address 1|2|3|9>, suffix x = setup fails
+      out = step|step|…   step = <res>;1t=<fds>:<answers>;1u=…;2t=…;2u=…;3t=…;3u=…    answers = <gen>:<address> or - -/
+
+def mixedBusy : List Nat := [18, 19]
+def mixedCodes : List Nat := [2, 3, 4, 5, 6, 7]
+
+def parseMSrv (s : String) : Option MSrv :=
+  match s.toList with
+  | [k, a] => do
+    let kind ← (match k with | 't' => some MKind.t | 'u' => some MKind.u | 'b' => some MKind.b | _ => none)
+    if a == '1' || a == '2' || a == '3' || a == '9' then some { kind := kind, addr := a.toNat - '0'.toNat } else none
+  | _ => none
+
+def parseMixedCfg (s : String) : Option (List MSrv × Bool) :=
+  let (s, fail) := if s.endsWith "x" then ((s.dropEnd 1).toString, true) else (s, false)
+  if s = "" then none else do
+    let srvs ← (s.splitOn ",").mapM parseMSrv
+    -- one server per address
+    if (srvs.map (·.addr)).eraseDups.length != srvs.length then none else some (srvs, fail)
+
+def parseMixedCase : List String → Option (Cfg × List Cfg)
+  | [] => none
+  | s :: ops =>
+    if !s.startsWith "S:" then none else
+    match parseMixedCfg (s.drop 2).toString, ops.mapM (fun o => if o.startsWith "R:" then parseMixedCfg (o.drop 2).toString else none) with
+    | some (s0, f0), some rs =>
+      if f0 || s0.any (·.addr == 9) then none
+      else some (mixedCfg s0 false, rs.map fun r => mixedCfg r.1 r.2)
+    | _, _ => none
+
+def cellName (x : Nat) : String := s!"{x / 2}{if x % 2 == 0 then "t" else "u"}"
+
+def showCell (x : Nat) (c : Nat × String) : String :=
+  s!"{cellName x}={c.1}:{if c.2 == "-" then "-" else s!"{c.2}:{x / 2}"}"
+
+def showMObs (o : MObs) : String :=
+  ";".intercalate (o.res :: (mixedCodes.zip o.cells).map fun p => showCell p.1 p.2)
+
+def mixedModel (f : List String) : String :=
+  match parseMixedCase f with
+  | none => "bad-case"
+  | some (c0, cs) => "|".intercalate ((mixedRun mixedBusy mixedCodes c0 cs).map showMObs)
+
+/-- an observed cell `<name>=<fds>:<answers>`: the answers must be a single `<gen>:<address>` with the address of the cell,
+or `-`; anything else (two different answers, an answer of another address's server) is a misroute (second component) -/
+def parseCell (x : Nat) (s : String) : Option ((Nat × String) × Bool) :=
+  match s.splitOn "=" with
+  | [n, v] =>
+    if n != cellName x then none else
+    match v.splitOn ":" with
+    | [fd, "-"] => fd.toNat?.map fun k => ((k, "-"), false)
+    | [fd, g, a] => do
+      let k ← fd.toNat?
+      if a == toString (x / 2) && g.toNat?.isSome then pure ((k, g), false) else pure ((k, v), true)
+    | fd :: _ => fd.toNat?.map fun k => ((k, v), true)
+    | _ => none
+  | _ => none
+
+def parseMObs (s : String) : Option MObs :=
+  match s.splitOn ";" with
+  | r :: cells =>
+    if cells.length != mixedCodes.length then none else do
+    let cs ← (mixedCodes.zip cells).mapM fun p => parseCell p.1 p.2
+    pure { res := r, cells := cs.map (·.1), mis := cs.any (·.2) }
+  | _ => none
+
+def mixedJudge (f : List String) (out : String) : String :=
+  match parseMixedCase f with
+  | none => if out = "bad-case" then "ok" else "bad:malformed-case-accepted:" ++ out
+  | some (c0, cs) =>
+    match (out.splitOn "|").mapM parseMObs with
+    | none => "bad:unparsable:" ++ out
+    | some obs => mixedVerdict mixedBusy mixedCodes c0 cs obs
+
 def streams : List Driver.Stream := [
   { name := "c07.handover", model := handoverModel, judge := handoverJudge },
-  { name := "c07.storm", model := stormModel, judge := stormJudge }
+  { name := "c07.storm", model := stormModel, judge := stormJudge },
+  { name := "c07.mixed", model := mixedModel, judge := mixedJudge }
 ]
 
 end Driver.C07
